@@ -123,6 +123,8 @@ async fn c01_async(ctx: &mut Ctx) {
         let mut c = NodeCfg::new(8 + i);
         c.enr_seq = 1 + ctx.tape.choose(3) as u64 * 2;
         c.request_timeout_ms = *ctx.tape.pick(&[1000u64, 300]);
+        // sometimes a genuine peer's record advertises another port than it really sends from
+        c.advertise_other_port = i > 0 && ctx.tape.choose(5) == 0;
         w.add_node(c).await;
     }
     let adv = Adversary::new(160 + ctx.tape.choose(4) as usize, w.attacker_addrs[0]);
